@@ -137,6 +137,7 @@ func runC27(c *Ctx) {
 
 	c.Bubble(func() {
 		s := simrt.New(c.T)
+		s.EnableHB()
 		s.KeepTrace = c.Knobs["trace"] != ""
 		s.MaxSteps = 600000
 		// Slow-party faults: a process is descheduled at a protocol step while
@@ -353,6 +354,9 @@ func runC27(c *Ctx) {
 		})
 		v := s.Run()
 		c.FinishSim(s, v)
+		if v == nil {
+			c.ReportRaces(s)
+		}
 		if v != nil {
 			return
 		}
